@@ -620,3 +620,14 @@ Proof. exact reach3_components_model. Qed.
 Check C09_inst_C05_components_reach3 : forall dbg idna, IdnaOK idna -> forall u,
   CReach3 dbg (host_parse idna) host_parse_opaque host_display u -> wfh u /\ components_clean dbg u.
 Print Assumptions C09_inst_C05_components_reach3.
+
+(* C05, first sentence of the property text for the linked model: only 0x21..0x7E, U+0020 solely inside an opaque
+   path, for every record of CReach3 whose stored host text has no space *)
+Theorem C09_inst_C05_alphabet_reach : forall dbg idna, IdnaOK idna -> forall u,
+  CReach3 dbg (host_parse idna) host_parse_opaque host_display u ->
+  (has_host u = true -> ~ In 32 (C03_WF.piece u (host_start u) (host_end u))) -> C05_Alphabet.alphabet_ok u.
+Proof. exact reach3_alphabet_model. Qed.
+Check C09_inst_C05_alphabet_reach : forall dbg idna, IdnaOK idna -> forall u,
+  CReach3 dbg (host_parse idna) host_parse_opaque host_display u ->
+  (has_host u = true -> ~ In 32 (C03_WF.piece u (host_start u) (host_end u))) -> C05_Alphabet.alphabet_ok u.
+Print Assumptions C09_inst_C05_alphabet_reach.
